@@ -62,7 +62,7 @@ func NewStats() *Stats {
 	return &Stats{Calls: map[callKey]int64{}, Counters: map[string]int64{}, States: map[uint64]struct{}{}, CaseHash: map[uint64]struct{}{}}
 }
 
-const statesPerChildCap = 1500000
+const statesPerChildCap = 400000
 
 // Ctx is the context of one case: its PRNG stream, the recorded call trace
 // and the verdicts of the monitors attached to it.
